@@ -1,0 +1,35 @@
+//go:build verif && (verif_all || verif_c05)
+// +build verif
+// +build verif_all verif_c05
+
+package gocql
+
+// Verification hooks (build tag `verif`), property C05, token strings from the network: the `tokens` column of
+// system.local / system.peers and the partitioner name are text the node sends. Add-only.
+
+import "fmt"
+
+// VerifC05hRing builds the real token ring (newTokenRing: partitioner by name, ParseString of every token string,
+// sort.Sort with token.Less) from hosts owning the given token strings (hostTokens[i] = tokens of host i), returns
+// the ring's tokens in ring order printed with token.String(), and the end token GetHostForToken finds for
+// ParseString(lookup) ("none": empty ring).
+func VerifC05hRing(partitioner string, hostTokens [][]string, lookup string) (order []string, end string, err error) {
+	hosts := make([]*HostInfo, len(hostTokens))
+	for i, toks := range hostTokens {
+		hosts[i] = &HostInfo{hostId: fmt.Sprintf("verif-c05-h%d", i), tokens: toks, state: NodeUp}
+	}
+	tr, err := newTokenRing(partitioner, hosts)
+	if err != nil {
+		return nil, "", err
+	}
+	order = make([]string, len(tr.tokens))
+	for i, ht := range tr.tokens {
+		order[i] = ht.token.String()
+	}
+	_, et := tr.GetHostForToken(tr.partitioner.ParseString(lookup))
+	end = "none"
+	if et != nil {
+		end = et.String()
+	}
+	return order, end, nil
+}
